@@ -1,3 +1,4 @@
+import re
 from .config import Config
 from .abbreviation.convert import AbbreviationAttribute, AbbreviationNode
 
@@ -62,7 +63,13 @@ class OutputStream:
     def push_field(self, index: int, placeholder: str=''):
         field = self.options.get('output.field')
         # NB: use `_push` instead of `push` to skip text processing
-        self._push(field(index, placeholder, offset=self.offset, line=self.line, column=self.column))
+        text = field(index, placeholder, offset=self.offset, line=self.line, column=self.column)
+        self._push(text)
+        # A placeholder may span several lines: keep line/column in step
+        lines = re.split(r'\r\n|\r|\n', text)
+        if len(lines) > 1:
+            self.line += len(lines) - 1
+            self.column = len(lines[-1])
 
 
 def tag_name(name: str, config: Config):
